@@ -19,6 +19,10 @@ CONSTANTS
   MaxNow = 0
   AllowClose = TRUE
   AllowCtx = FALSE
+  MaxCalls = 1
+  WFault = FALSE
+  TimeoutCarriesOver = FALSE
+  WriteErrKeepsEntry = FALSE
   MaxTry = 2
 INVARIANTS TypeOK OwnTransaction FirstAcceptable ChanClosedOnlyAfterOwnDone NoNilDelivery PendingEntriesLive Capacity IdReusable CloseStopsLoop
 PROPERTIES RefuseWhilePending Isolation NoTxAfterAccept
